@@ -83,6 +83,13 @@ def jxlp_signatures(f, variants):
                     add(b, "proceed")
             if st[2][0] == "agg" and st[2][1][0] == "adt" and st[2][1][1] == DETECT and len(p) == 2 and p[1] == "*":
                 add(b, "proceed")
+            # any store of a whole DetectState through a reference (however the value was produced)
+            if len(p) == 2 and p[1] == "*" and f.local_ty(p[0]).lstrip("&").replace("mut ", "").strip() == DETECT:
+                add(b, "proceed")
+        t = blk[1]
+        if t[0] == "call" and t[3] and len(t[3]) == 2 and t[3][1] == "*" \
+                and f.local_ty(t[3][0]).lstrip("&").replace("mut ", "").strip() == DETECT:
+            add(b, "proceed")
     if not f.path.endswith("::emit_single"):
         for b, blk in enumerate(f.blocks):
             if f.is_cleanup(b):
